@@ -159,7 +159,7 @@ CLAIMED["C08"] = {
 
 CLAIMED["C16"] = {
     "text": "Proved (Verus, all inputs): (1) to_exp translates an index-based builder tree into a language tree with exactly the same meaning under the language semantics (every variant incl. min/max/and/or lists), "
-            "and eval_expr - the evaluator behind BuilderSolution::eval - computes that meaning (the Min/Max/And/Or arms use iterator fold/all/any and are assumed arms checked by a BOUNDED search on the real code); "
+            "and eval_expr - the evaluator behind BuilderSolution::eval - computes that meaning, every arm (the iterator fold / all / any of the Min / Max / And / Or arms are read as loops by rules R51 / R52); "
             "(2) ModelBuilder::new / add_var / with / satisfy keep the representation invariant 'handle i names the i-th declared variable, names distinct, every name has a domain entry' (a duplicate name never returns), "
             "and into_model / BuilderConstraint::to_constraint hand over a name-based model whose k-th constraint holds at an assignment exactly when the builder's k-th constraint does, whose objective is the builder's "
             "(or the constant-0 feasibility objective), and in which every declared variable keeps its type and is marked used; (3) LpSolution::new / value_of: reading by name returns the value of the first assignment with that name. "
